@@ -45,12 +45,17 @@ fn tags(c: &Energy) -> String {
 pub fn scenario(u: &Unit) -> String {
     let lines = parse_shape(u.get("shape"));
     let n = u.n();
-    let text = format!("#META CTE_AREAREF: 123.5\n#META Nombre: edificio <1> & \"2\"\n{}", shape_text(&lines, n));
+    let text = format!("#META CTE_AREAREF: 123.5\n#META Nombre: edificio <1> & \"2\"\n#META Fecha: 2024-01-31T10:20:30\n{}", shape_text(&lines, n));
     spec(false);
-    let comps = match text.parse::<Components>() {
+    let mut comps = match text.parse::<Components>() {
         Ok(c) => c,
         Err(e) => return err_kind(&e).to_string(),
     };
+    // the declared metadata values are what is read (values may contain the key delimiter) ...
+    ob("meta.declared.Fecha", if comps.get_meta("Fecha").as_deref() == Some("2024-01-31T10:20:30") { t() } else { f() });
+    ob("meta.declared.Nombre", if comps.get_meta("Nombre").as_deref() == Some("edificio <1> & \"2\"") { t() } else { f() });
+    // ... and so is metadata attached through the API before writing
+    comps.set_meta("Nota", "fuente: http://example.org/a?b=1, rev: 2");
     let written = comps.to_string();
     let back = written.parse::<Components>();
     spec(true);
@@ -98,10 +103,11 @@ pub fn scenario(u: &Unit) -> String {
         }
     }
     // factors
-    let fp = match factors(u.get_or("fs", "PEN"), &carriers_of(&lines)) {
+    let mut fp = match factors(u.get_or("fs", "PEN"), &carriers_of(&lines)) {
         Ok(x) => x,
         Err(e) => return err_kind(&e).to_string(),
     };
+    fp.set_meta("Fuente", "RITE 2014: tabla 3, rev: 20/07/2014");
     spec(false);
     let fback = fp.to_string().parse::<Factors>();
     spec(true);
